@@ -35,6 +35,10 @@ Extra == <<
   [n |-> "x- keys in free-form mappings", top |-> FALSE, p |-> <<"environment">>, v |-> Sq2(S("x-trace=1"), S("A=2"))],
   [n |-> "x- label", top |-> FALSE, p |-> <<"labels">>, v |-> Sq1(S("x-team=core"))],
   [n |-> "x- network of a service", top |-> TRUE, p |-> <<"networks", "x-net">>, v |-> M1("driver", S("bridge"))],
+  [n |-> "mem_swappiness", top |-> FALSE, p |-> <<"mem_swappiness">>, v |-> I(60)],
+  [n |-> "zero stop_grace_period", top |-> FALSE, p |-> <<"stop_grace_period">>, v |-> S("0s")],
+  [n |-> "zero healthcheck durations", top |-> FALSE, p |-> <<"healthcheck">>, v |-> M([k \in {"test", "interval", "timeout", "start_period", "start_interval"} |-> IF k = "test" THEN Sq2(S("CMD"), S("true")) ELSE S("0s")])],
+  [n |-> "zero restart_policy durations", top |-> FALSE, p |-> <<"deploy">>, v |-> M1("restart_policy", M3("condition", S("on-failure"), "delay", S("0s"), "window", S("0s")))],
   [n |-> "ssh key without path", top |-> FALSE, p |-> <<"build">>, v |-> M2("context", S("."), "ssh", M2("mykey", Null, "default", Null))],
   [n |-> "ssh key path", top |-> FALSE, p |-> <<"build">>, v |-> M2("context", S("."), "ssh", Sq1(S("k1=/p1")))],
   [n |-> "ssh keys", top |-> FALSE, p |-> <<"build">>, v |-> M2("context", S("."), "ssh", Sq2(S("k1=/p1"), S("k2=/p2")))],
